@@ -149,10 +149,42 @@ class Table(object):
         self.rot, self.trans, self.syscond = np.array(obj.rot), np.array(obj.trans), np.array(obj.syscond)
 
 
+_NAME_INDEX = None
+
+
+def name_index():
+    """spelling -> (number, setting), built from the names the 230 sglib classes carry themselves (not from sg.sgdic):
+    the standard name, for R groups also name+'h', and the name of the rhombohedral setting"""
+    global _NAME_INDEX
+    if _NAME_INDEX is None:
+        from xfab import sglib
+        idx = {}
+        for no in range(1, 231):
+            klass = getattr(sglib, "Sg%d" % no, None)
+            if klass is None:
+                continue
+            try:
+                std = "".join(str(klass(cell_choice="standard").name).split()).lower()
+                rh = "".join(str(klass(cell_choice="rhombohedral").name).split()).lower()
+            except Exception:
+                continue
+            for k, setting in ((std, "standard"), (std + "h", "standard"), (rh, "rhombohedral" if rh != std else "standard")):
+                if k == std + "h" and no not in R_GROUPS:
+                    continue
+                idx.setdefault(k, set()).add((no, setting))
+        _NAME_INDEX = idx
+    return _NAME_INDEX
+
+
 def table_by_name(key):
-    """name -> Table with the documented rule: dictionary entry gives the number, R...r means rhombohedral axes"""
-    from xfab import sg as sgmod
+    """name -> Table.  The name is resolved through the names the sglib classes carry (so that a wrong entry of sg.sgdic
+    cannot hide from the oracles of C07, C08, C15, C17); sg.sgdic is used only for a spelling no class answers to"""
     k = "".join(str(key).split()).lower()
+    hit = name_index().get(k, ())
+    if len(hit) == 1:
+        no, setting = next(iter(hit))
+        return Table(no, setting)
+    from xfab import sg as sgmod
     no = int(sgmod.sgdic[k][2:])
     return Table(no, "rhombohedral" if (k[0] == "r" and k[-1] == "r") else "standard")
 
@@ -257,7 +289,11 @@ def _stable(ctx, key, o):
 
 
 def case_by_number(ctx, p):
-    o = ctx.sgmod.sg(sgno=p["no"], cell_choice=p["cell_choice"])
+    if p["no"] % 3 == 0:
+        o = ctx.sgmod.sg(p["no"], None, p["cell_choice"])          # documented positional order (sgno, sgname, cell_choice)
+        ctx.mon.config("call form: positional")
+    else:
+        o = ctx.sgmod.sg(sgno=p["no"], cell_choice=p["cell_choice"])
     _request_expectations(ctx.mon, o, p["no"], p["cell_choice"], "number")
     _stable(ctx, ("no", p["no"], p["cell_choice"]), o)
     ctx.mon.config("requested-by-number:%s" % p["cell_choice"])
@@ -270,7 +306,11 @@ def case_by_name(ctx, p):
     rh = (key[0] == "r" and key[-1] == "r") or p["cell_choice"] == "rhombohedral"
     setting = "rhombohedral" if rh else "standard"
     try:
-        o = ctx.sgmod.sg(sgname=p["spelling"], cell_choice=p["cell_choice"])
+        if len(p["spelling"]) % 3 == 0:
+            o = ctx.sgmod.sg(None, p["spelling"], p["cell_choice"])
+            mon.config("call form: positional")
+        else:
+            o = ctx.sgmod.sg(sgname=p["spelling"], cell_choice=p["cell_choice"])
     except Exception as exc:
         mon.check("sweep:name lookup equals number lookup", False, observed=repr(exc), detail=repr(p["spelling"]))
         return
